@@ -14,8 +14,8 @@ import (
 
 func init() {
 	register(&core.Property{
-		ID:    "C19",
-		Title: "Disabled snippet keywords never reach the configuration through annotations",
+		ID:          "C19",
+		Title:       "Disabled snippet keywords never reach the configuration through annotations",
 		Explanation: "Static decision of the filter's structure: (1) the lines stored into Backend.CustomConfig are the very value the keyword scan ranged over; (2) the store is reachable only after the loop over all disabled keywords completed, `*` returns before it from any position in the list, a first-token hit returns before it, an empty keyword only skips itself; (3) no other annotation-fed writer of Backend.CustomConfig exists; (4) firstToken skips and stops on the same constant table of ASCII blanks, which contains at least space, tab, CR, LF, VT and FF; (5) the template prints CustomConfig lines of backends verbatim (nothing else feeds raw annotation text into a backend section).",
 		NotDecided: []string{
 			"every spelling of a first token (a statement about all strings); mixed-case keywords are compared case-sensitively as documented",
